@@ -25,7 +25,14 @@ def view_method(ex, view, name, args, kw, node):
             if not ex.branch(z3.Select(d.keys, k)):
                 raise SymRaise("IDNotFound", w)
             return VSet(z3.Select(d.fields["v"], k), frozen=(net.kind == "SC"))
-        raise Unsupported("edges.members() without an id")
+        dt = kw.get("dtype") if "dtype" in kw else (args[1] if len(args) > 1 else None)
+        if isinstance(dt, VBuiltin) and dt.name == "dict":
+            # EdgeView.members(dtype=dict): a new dict on exactly the edge ids whose values are copies of the member sets
+            # (the contract discharged for the real method in contracts/views.py, `copy-of-the-members`)
+            r = VDict("dict", "set", d.keys, {"v": d.fields["v"]})
+            r.fresh_values = True
+            return r
+        raise Unsupported("edges.members() without an id (dtype=list)")
     if view.which == "nodes" and name == "memberships" and net.kind != "DH":
         n = args[0] if args else kw.get("n")
         d = net.f["_node"]
